@@ -5,6 +5,7 @@ repository-test traces and validated by TLC against MeasureTrace.tla."""
 import contextlib
 import inspect
 import io
+import warnings
 
 import numpy as np
 import quaternion
@@ -293,7 +294,9 @@ def _job(args):
         return [(o.prop, o.fn, o.cls, dict(o.detail, routine=name, n=n), o.events) for o in recs]
     if name.startswith("c14:"):
         return _c14_job(name[4:], n, seed)
-    if name.endswith("@vb"):
+    if name.endswith("@we"):
+        jn, fn, a, kw = build(name[:-3], n, rng)
+    elif name.endswith("@vb"):
         # the same call with verbose output switched on (solver attribute or keyword): printing is supposed to be inert
         jn, fn, a, kw = build(name[:-3], n, rng)
         kw = dict(kw)
@@ -368,7 +371,16 @@ def _job(args):
                 fn(*[x.copy() if isinstance(x, np.ndarray) and x.ndim else x for x in a_call], **{k_: (v_.copy() if isinstance(v_, np.ndarray) and v_.ndim else v_) for k_, v_ in kw_call.items()})
             np.random.seed(seed % (2 ** 31))
         try:
-            out = fn(*a_call, **kw_call)
+            if name.endswith("@we"):
+                # a strict interpreter (python -W error::DeprecationWarning, the way many test suites run): behaviour that
+                # numpy announces "will error in future" is an error now
+                with warnings.catch_warnings():
+                    warnings.simplefilter("error", DeprecationWarning)
+                    warnings.simplefilter("error", FutureWarning)
+                    warnings.simplefilter("error", PendingDeprecationWarning)
+                    out = fn(*a_call, **kw_call)
+            else:
+                out = fn(*a_call, **kw_call)
         except TypeError as e_:
             if styled is not None and any(t_ in str(e_) for t_ in ("unexpected keyword argument", "positional argument", "multiple values for")):
                 return []      # the signature itself changed (a renamed or removed parameter): an API matter, not this property's
@@ -474,6 +486,7 @@ def stage(ctx, quick=False):
             if n > CAP.get(nm, 1000):
                 continue
             jobs.append((nm + "@vb", n, ctx.seed * 1013 + 41 * n + len(jobs)))
+            jobs.append((nm + "@we", n, ctx.seed * 1013 + 53 * n + len(jobs)))
             jobs.append((nm + "@df", n, ctx.seed * 1013 + 43 * n + len(jobs)))
             for st_ in ("@pp", "@kw", "@oc", "@o0"):
                 jobs.append((nm + st_, n, ctx.seed * 1013 + 47 * n + len(jobs)))
